@@ -29,7 +29,7 @@ func init() {
 			Old: "\ts.dataChannel = dc\n", New: "\ts.dataChannel = dc\n\tif s.pending.Len() > 0 {\n\t\tdc.Write(s.pending.Bytes())\n\t\ts.pending.Reset()\n\t}\n", Expect: "R-WS-EVERY-SITE-ASSEMBLED",
 			More: []Edit{{File: "service/wsp/session.go", Old: "\tdataChannel websocket.Conn\n", New: "\tdataChannel websocket.Conn\n\tpending     bytes.Buffer\n"}}},
 		&Mutant{Prop: "C13", Name: "c13-prefix-in-package-variable", File: "av/format/rtp/packet.go",
-			Old: "\tvar prefix [4]byte\n", New: "\tprefix := prefixScratch[:]\n", Expect: "R-FRAME-PREFIX-LOCAL",
+			Old: "\tvar prefix [4]byte\n\tprefix[0] = TransferPrefix", New: "\tprefix := prefixScratch[:]\n\tprefix[0] = TransferPrefix", Expect: "R-FRAME-PREFIX-LOCAL",
 			More: []Edit{{File: "av/format/rtp/packet.go", Old: "\tif _, err := w.Write(prefix[:]); err != nil {", New: "\tif _, err := w.Write(prefix); err != nil {"},
 				{File: "av/format/rtp/packet.go", Old: "// Write 根据规范将 RTP 包输出到 w", New: "var prefixScratch [4]byte\n\n// Write 根据规范将 RTP 包输出到 w"}}},
 		&Mutant{Prop: "C14", Name: "c14-request-line-last-space", File: "av/format/rtsp/request.go",
